@@ -44,6 +44,11 @@ def features(b):
         if e.get("ev") == "cancel" and (e.get("id", 0) == -1 or e.get("by")):
             k += "/byslate"
         ks.append((k, e.get("sl", e.get("id", "")), e.get("w", "")))
+        # in what kind of wallet the step is taken (statuses / entry types present, from the model)
+        for x in e.get("ost") or []:
+            f.add(("ost", k, x))
+        for x in e.get("tty") or []:
+            f.add(("tty", k, x))
         # how many OTHER slates are open (started, not cancelled) when this happens
         # (= slates with a log entry in THIS wallet: locked, received or invoiced there)
         sl = e.get("sl") or e.get("by") or ""
@@ -68,18 +73,38 @@ def features(b):
     return f
 
 
+FOCUS = []          # substrings: features that mention one of them are covered first (set per check)
+
+
 def select_behaviours(behs, n, rnd):
-    """greedy cover of the pair features, then a random fill up to n"""
+    """greedy cover of the features (the check's focus features first), then a random fill up to n"""
     if len(behs) <= n:
         return list(behs), 0
     pool = list(behs)
     rnd.shuffle(pool)
     if len(pool) > 6000:
+        if FOCUS:
+            # keep every behaviour that shows a focus feature, fill with the others
+            isf = [any(any(x in str(ft) for x in FOCUS) for ft in features(b)) for b in pool]
+            pool = [b for b, y in zip(pool, isf) if y][:4000] + [b for b, y in zip(pool, isf) if not y]
         pool = pool[:6000]
     feats = [features(b) for b in pool]
     covered = set()
     chosen = []
     remaining = set(range(len(pool)))
+    if FOCUS:
+        ffeats = [set(ft for ft in fs if any(x in str(ft) for x in FOCUS)) for fs in feats]
+        while len(chosen) < (2 * n) // 3 and remaining:
+            best, gain = None, 0
+            for i in remaining:
+                g = len(ffeats[i] - covered)
+                if g > gain:
+                    best, gain = i, g
+            if best is None:
+                break
+            chosen.append(best)
+            covered |= feats[best]
+            remaining.discard(best)
     while len(chosen) < n and remaining:
         best, gain = None, 0
         for i in remaining:
@@ -110,14 +135,14 @@ def mc_and_gen(cfgs, tier, timeout):
             n, d = spec_.split("x")
             sim = (int(n), int(d))
             r = run_tlc("MCWallet.tla", cfg, "mc_" + cfg.replace(".cfg", "") + "_sim", timeout=timeout, workers=4,
-                        simulate="num=%d" % sim[0], extra=["-depth", str(sim[1]), "-seed", str(seed())])
+                        simulate="num=%d" % sim[0], extra=["-depth", str(sim[1]), "-seed", str(seed())], prefer=tuple(FOCUS))
             m = re.search(r"Progress: (\d+) states checked, (\d+) traces generated", r["out"])
             if m:
                 r["states"], r["transitions"] = int(m.group(1)), int(m.group(1))
             r["completed"] = False
             r["error"] = r["rc"] != 0
         else:
-            r = run_tlc("MCWallet.tla", cfg, "mc_" + cfg.replace(".cfg", ""), timeout=timeout)
+            r = run_tlc("MCWallet.tla", cfg, "mc_" + cfg.replace(".cfg", ""), timeout=timeout, prefer=tuple(FOCUS))
         if r["error"] and not r["completed"] and r["rc"] == 124 and r["states"] > 0 and not r["violated"]:
             # the time budget of the exploration ran out: what was explored and printed is used,
             # the evidence says the bounded space was not exhausted
@@ -148,6 +173,11 @@ def mc_and_gen(cfgs, tier, timeout):
     return stats, behs, cex
 
 
+# monitors whose violation key also names the class of situation (the info field), so that a new
+# kind of violation is not taken for a listed finding of the same monitor
+INFO_KEYED = {"ForeignOnlyAdds"}
+
+
 def judge(prop, ndjson, tag):
     viols, nonconfs, m_ok, _ = validate_trace("TraceWallet.tla", "TraceWallet.cfg", ndjson, tag, cfg_fallback="TraceWalletP.cfg")
     mine = [v for v in viols if v["p"] == prop]
@@ -158,6 +188,8 @@ def judge(prop, ndjson, tag):
     keys = {}
     for (b, m), v in first.items():
         key = "%s/%s/%s" % (prop, m, v["ev"])
+        if m in INFO_KEYED and v["ev"] == "finalize" and v.get("info"):
+            key += ":" + str(v["info"])
         if key not in keys:
             keys[key] = {"behaviour": b, "line": v["line"], "info": v.get("info", ""), "count": 0}
         keys[key]["count"] += 1
@@ -214,6 +246,8 @@ def decorate(behs, rnd, params):
 
 
 def run(prop, tier, params, t0):
+    global FOCUS
+    FOCUS = list(params.get("focus", []))
     rnd = random.Random(seed())
     build_s = build_harness(["replay_wallet"])
     cfgs = params["quick_cfgs"] if tier == "quick" else params["thorough_cfgs"]
